@@ -61,7 +61,8 @@ def validate(trace_spec, traces, constants_cfg="", *, name=None, timeout=900, ch
         results = list(ex.map(one, starts))
     for start, res in results:
         if res.timed_out or not res.ok:
-            raise tlc.MachineryError("trace validation with %s failed (%s)\n%s" % (trace_spec, res.error or "timeout", res.out[-3000:]))
+            at = res.out.find("Error:")
+            raise tlc.MachineryError("trace validation with %s failed (%s)\n%s\n...\n%s" % (trace_spec, res.error or "timeout", res.out[max(0, at - 200): at + 1800], res.out[-1200:]))
         states += res.distinct
         for p in res.prints:
             tag = p[0]
